@@ -43,6 +43,14 @@ PROPS = {
         'assumptions': ['flags are not mixed into the word list except after "--"'],
         'rule': 'generated magefile projects (1-3 files, namespaces, 0-3 mage:import packages, aliases, default) compiled by the real mage; 24 (quick) / 80 (thorough) generated command lines per project run through mage, the cached binary and a -compile\'d binary; distinct = different canonical (project, words, failing callee)',
     },
+    'C05': {
+        'lean': ['MageModel.Props.C05', 'MageModel.Bridge.Invoke'],
+        'needs_mage': True,
+        'streams': [S('c05', 60, 600)],
+        'trusted': ['the operating system\'s exit-status plumbing (wait status = code mod 256)', 'Go\'s flag package (transcribed in Gen/Flags.lean and diffed)', 'strconv.Atoi/ParseBool, time.ParseDuration (answers recorded per word and given to the model)', 'the probe magefile\'s Fail(kind,a,b) target does what Oracle/Mage.lean:failOutcome says (the definition of the program under test)'],
+        'assumptions': ['exit codes 1..255 (outside that range the OS truncates: witness in Props/C05); death by signal is not modelled; -clean/-init/-version success paths are modelled as status 0 only'],
+        'rule': 'one probe project compiled once; command lines of 1-3 targets with the failing one at every position, 16 failure kinds (returned error, mg.Fatal/Fatalf, sh exit code, panic with error/coded error/value, os.Exit, parallel/serial/nested dependency sets with equal, different and partly-zero codes), a sweep over codes 1..255 (stride 16 quick, every code thorough), 35 malformed child and 18 malformed front-end command lines, MAGEFILE_* flag equivalents, 7 unbuildable projects x 3 lines x 2 cache modes; each through mage (default mode), mage reusing the cached binary (MAGEFILE_HASHFAST) and the -compile\'d binary; distinct = different canonical (op, env, argv)',
+    },
     'C06': {
         'lean': ['MageModel.Props.C06', 'MageModel.Bridge.FE'],
         'needs_mage': True,
